@@ -1176,7 +1176,7 @@ static int real_decode(const uint8_t *z, size_t zn, size_t cap, uint8_t **out, s
 }
 
 static void snappy_mutations(vrng_t *r, const uint8_t *z, size_t zn, size_t n, const char *what) {
-  size_t rounds = 4 + 400000 / (zn + 1000), k;
+  size_t rounds = 4 + 400000 / (zn + n + 1000), k;
   rc_buf_t ref;
   if (rounds > 48) rounds = 48;
   rc_buf_init(&ref);
